@@ -14,12 +14,13 @@ import (
 )
 
 type ME struct {
-	K string `json:"k"` // int str name eq ne lt not true false
-	I int    `json:"i,omitempty"`
-	S string `json:"s,omitempty"`
-	N string `json:"n,omitempty"`
-	L *ME    `json:"l,omitempty"`
-	R *ME    `json:"r,omitempty"`
+	K    string `json:"k"` // int str name eq ne lt not true false sub call
+	I    int    `json:"i,omitempty"`
+	S    string `json:"s,omitempty"`
+	N    string `json:"n,omitempty"`
+	L    *ME    `json:"l,omitempty"`
+	R    *ME    `json:"r,omitempty"`
+	Args []ME   `json:"args,omitempty"` // call: arguments (N = callee)
 }
 
 type MPair struct {
@@ -82,6 +83,14 @@ func (e *ME) Src() string {
 		return "(" + e.L.Src() + " < " + e.R.Src() + ")"
 	case "not":
 		return "(not " + e.L.Src() + ")"
+	case "sub":
+		return "(" + e.L.Src() + " - " + e.R.Src() + ")"
+	case "call":
+		var as []string
+		for i := range e.Args {
+			as = append(as, e.Args[i].Src())
+		}
+		return e.N + "(" + strings.Join(as, ", ") + ")"
 	}
 	panic("ME.Src: " + e.K)
 }
@@ -434,6 +443,24 @@ func (ip *mInterp) eval(s *mScope, e *ME) any {
 		return l < r
 	case "not":
 		return !mTruthy(ip.eval(s, e.L))
+	case "sub":
+		l, _ := ip.eval(s, e.L).(int)
+		r, _ := ip.eval(s, e.R).(int)
+		return l - r
+	case "call":
+		cl, ok := ip.lookup(s, e.N).(*mClosure)
+		if !ok {
+			return nil
+		}
+		var args []any
+		for i := range e.Args {
+			args = append(args, ip.eval(s, &e.Args[i]))
+		}
+		v, err := ip.call(cl, args)
+		if err != nil {
+			panic(err) // recovered in mmReference
+		}
+		return v
 	}
 	panic("eval: " + e.K)
 }
@@ -760,8 +787,21 @@ func mmReference(root []MNode, files map[string][]MNode, globals, ctx Val) (stri
 	}
 	ip := &mInterp{public: pub, globals: g, files: files, cycles: map[int]int{}, changed: map[int][]string{}, seen: map[int]bool{}}
 	var sb strings.Builder
-	if e := ip.run(root, &mScope{priv: map[string]any{}}, &sb); e != nil {
-		return "", e
+	var rerr *mErr
+	func() {
+		defer func() {
+			if p := recover(); p != nil {
+				if me, ok := p.(*mErr); ok {
+					rerr = me
+					return
+				}
+				panic(p)
+			}
+		}()
+		rerr = ip.run(root, &mScope{priv: map[string]any{}}, &sb)
+	}()
+	if rerr != nil {
+		return "", rerr
 	}
 	return sb.String(), nil
 }
